@@ -76,21 +76,23 @@ def merge(ck, traces, k, name):
             for tp in part:
                 vlib.lint_trace(open(tp).read().splitlines(), tp)
                 for l in open(tp):
-                    if '"k":"End"' not in l[:12]:
-                        f.write(l)
-                        n += 1
+                    if '"k":"End"' in l and json.loads(l).get("k") == "End":
+                        continue
+                    f.write(l)
+                    n += 1
             f.write(json.dumps({"k": "End", "events": n}) + "\n")
         out.append(mp)
     return out
 
 
-def judge(ck, traces, what, par=8):
-    """validate the trace files in parallel; report violations; return all events (for statistics)"""
+def judge(ck, traces, par=8):
+    """validate the trace files in parallel; report violations"""
     def val(tp):
         return ck.validate_events("MsgHash_Trace", "trace/MsgHash_Trace.cfg", tp, timeout=2400, name="trace_" + os.path.basename(tp)[:-7], heap_gb=3)
     anyc = collections.Counter()
     nrej = 0
     for tp, (res, rejected) in zip(traces, vlib.parallel(val, traces, n=par)):
+        what = "S->C" if os.path.basename(tp).startswith("jgen") else "C->S"
         notes = {}
         for t in res.tuples("NOTE"):
             if isinstance(t[2], str) and t[2].startswith("anycast-"):
@@ -204,21 +206,26 @@ def run(ck):
                        "source cells of block records come from a raw decode of a separate parse (library's generic Hashmap walker, no hashes)",
                        "level masks of recorded cells are derived from structure (Cells!WithMasks)"]
     ck.build_vh()
-    # ------------------------------------------------------------------ S->C
-    vecs = gen_vectors(ck)
-    gtraces = replay_vectors(ck, vecs, "gen", NSHARD_GEN if not ck.thorough else vlib.NCPU)
-    anyc1, _ = judge(ck, merge(ck, gtraces, 8, "jgen"), "S->C", par=8)
+    # S->C (generate, concretise) and C->S (record) run side by side; then every trace is judged by MsgHash_Trace
+    shards = vlib.NCPU if ck.thorough else 8
+    njvm = 8 if ck.thorough else 5
+
+    def s2c():
+        vecs = gen_vectors(ck)
+        gtraces = replay_vectors(ck, vecs, "gen", NSHARD_GEN if not ck.thorough else vlib.NCPU)
+        return vecs, gtraces, merge(ck, gtraces, njvm, "jgen")
+
+    def c2s():
+        def drive(i):
+            tp = os.path.join(ck.work, "drive_%02d.ndjson" % i)
+            ck.run_vh(["drive", "C16", "-out", tp, "-tier", ck.tier, "-seed", ck.seed, "-shard", i, "-shards", shards], timeout=1800)
+            return tp
+        traces = vlib.parallel(drive, range(shards))
+        return None, traces, merge(ck, traces, njvm, "jdrive")
+    (vecs, gtraces, jg), (_, traces, jd) = vlib.parallel(lambda f: f(), [s2c, c2s], n=2)
+    anyc, _ = judge(ck, jg + jd, par=vlib.NCPU)
     gs, gdistinct, _ = stats(gtraces)
     ck.sample({"direction": "S->C", "case": vecs[7]["c"], "pair": next(v for v in vecs if v["k"] == "pair" and v["exp"] == "free")})
-    # ------------------------------------------------------------------ C->S
-    shards = vlib.NCPU
-
-    def drive(i):
-        tp = os.path.join(ck.work, "drive_%02d.ndjson" % i)
-        ck.run_vh(["drive", "C16", "-out", tp, "-tier", ck.tier, "-seed", ck.seed, "-shard", i, "-shards", shards], timeout=1800)
-        return tp
-    traces = vlib.parallel(drive, range(shards))
-    anyc2, _ = judge(ck, merge(ck, traces, 8, "jdrive"), "C->S", par=8)
     ds, ddistinct, ncells = stats(traces)
     ck.extra["recorded"] = {k: v for k, v in sorted(ds.items())}
     ck.extra["cells_judged"] = ncells
@@ -229,11 +236,10 @@ def run(ck):
         raise Infra("no real-block records were judged")
     if ds["Pair:equal"] < 20 or ds["Pair:differ"] < 20 or ds["Pair:free"] < 5:
         raise Infra("random pairs do not cover the three relations: %s" % {k: v for k, v in ds.items() if k.startswith("Pair:")})
-    anyc = anyc1 + anyc2
     if anyc:
         ck.notes.append("observation (not a verdict): for destinations carrying an anycast prefix Hash(true) used: %s - the library clears the "
                         "anycast of addr_std destinations and keeps it for addr_var ones; both forms are admitted by the specification" % dict(anyc))
-    ck.notes.append("block-4 holds no transactions (empty account_blocks); the quick tier judges block-5 and every 12th account block / descriptor "
+    ck.notes.append("block-4 holds no transactions (empty account_blocks); the quick tier judges block-5 and every 6th transaction / 12th descriptor "
                     "entry of block-2, the thorough tier all five blocks")
     # ------------------------------------------------------------------ canaries
     evs = vlib.read_ndjson(traces[0])
@@ -262,12 +268,12 @@ def run(ck):
     ck.states, ck.transitions, ck.traces_ok, ck.evaluations = st
     got = [r["line"] for r in rej]
     cnotes = {t[1]: t[2] for t in res.tuples("NOTE") if not str(t[2]).startswith("anycast-")}
-    ck.canary("one digit of a reported Hash(false) / cached Hash(true) changed -> rejected", 1 in got and 2 in got)
+    intact = not (set(got) & {9, 10, 11, 12})       # the unmodified events must be accepted, or the rejections mean nothing
+    ck.canary("one digit of a reported Hash(false) / cached Hash(true) changed -> rejected (original accepted)", 1 in got and 2 in got and intact)
     ck.canary("pair with different destinations declared 'equal' -> rejected (with and without forged equal hashes)",
-              3 in got and 4 in got and cnotes.get(3) == "declared")
-    ck.canary("'equal' pair with one normalised hash changed -> rejected", 5 in got)
-    ck.canary("transaction: cached hash digit / SourceBoc digit / out-message hash digit changed -> rejected", 6 in got and 7 in got and 8 in got)
-    ck.canary("the unmodified events are accepted", not (set(got) & {9, 10, 11, 12}))
+              3 in got and 4 in got and cnotes.get(3) == "declared" and intact)
+    ck.canary("'equal' pair with one normalised hash changed -> rejected", 5 in got and intact)
+    ck.canary("transaction: cached hash digit / SourceBoc digit / out-message hash digit changed -> rejected", 6 in got and 7 in got and 8 in got and intact)
     return ck.finish(rule=RULE, distinct=len(gdistinct | ddistinct))
 
 
